@@ -49,8 +49,47 @@ type replEntry struct {
 	prefix bool
 	loose  bool // compare against the bracket-free form
 	fn     *ClosureV
+	mode   string // "" = contract; replModeReal / replModeGoInline = directive (fn is nil), see below
 	decl   string // the declaring verifReplacements function
 	used   bool
+}
+
+// Directives: a value of the replacements map may be one of these two strings instead of a
+// function. They do not replace anything; they switch on an interpretation mode for the functions
+// the key matches (opt-in, per harness directory, reported like contracts).
+//
+//	replModeReal      the engine stub of the function (stubs.go, bigmodel.go) is bypassed and the
+//	                  function's own SSA body is interpreted (used by harness/e1/paillier, which
+//	                  runs the REAL pkg/base/nt/num on top of a saferith model instead of the
+//	                  abstract big-integer model);
+//	replModeGoInline  a `go` statement whose callee matches is executed synchronously at the spawn
+//	                  point (run to completion) instead of being ignored: one admissible schedule of
+//	                  a fork-join section (`wg.Add; go ...; go ...; wg.Wait`) whose goroutines do not
+//	                  communicate; data races are not looked for.
+const (
+	replModeReal     = "verif:real-body"
+	replModeGoInline = "verif:go-inline"
+)
+
+// directive returns the directive entry of fn for the given mode, if any.
+func (in *Interp) directive(fn *ssa.Function, mode string) *replEntry {
+	if in.Repl == nil || fn == nil {
+		return nil
+	}
+	if e := in.Repl.lookup(fn); e != nil && e.mode == mode {
+		return e
+	}
+	return nil
+}
+
+// noteDirective records the use of a directive among the replacements (they are part of the claim).
+func (in *Interp) noteDirective(e *replEntry, fn *ssa.Function) {
+	e.used = true
+	tag := fn.String() + " => [" + e.mode + "]"
+	in.ReplUsed[tag] = true
+	if in.Ex != nil && in.Ex.replOnPath != nil {
+		in.Ex.replOnPath[tag] = true
+	}
 }
 
 type replTable struct {
@@ -166,7 +205,7 @@ func (in *Interp) tryReplace(fr *frame, fn *ssa.Function, args []Value) (Value, 
 		return nil, false
 	}
 	e := in.Repl.lookup(fn)
-	if e == nil {
+	if e == nil || e.mode != "" {
 		return nil, false
 	}
 	if e.fn.Fn == fn {
@@ -254,6 +293,12 @@ func (e *Engine) loadReplacements() error {
 			if !ok || iv.T == nil {
 				return fmt.Errorf("%s: value for %q is nil", f.Name(), ks.S)
 			}
+			if sv, isStr := iv.V.(StrV); isStr && sv.Sym == nil && !sv.Opaque && (sv.S == replModeReal || sv.S == replModeGoInline) {
+				ent := newReplEntry(ks.S, nil, f.Name())
+				ent.mode = sv.S
+				tab.entries = append(tab.entries, ent)
+				continue
+			}
 			cl, ok := iv.V.(*ClosureV)
 			if !ok || cl == nil || cl.Fn == nil {
 				return fmt.Errorf("%s: value for %q is not a function (%s)", f.Name(), ks.S, iv.T)
@@ -284,6 +329,10 @@ func (e *Engine) replacementInfo() []ReplacementInfo {
 		return out
 	}
 	for _, r := range e.In.Repl.entries {
+		if r.mode != "" {
+			out = append(out, ReplacementInfo{Key: r.key, Replacement: "[" + r.mode + "]", DeclaredIn: r.decl, Used: r.used})
+			continue
+		}
 		out = append(out, ReplacementInfo{Key: r.key, Replacement: r.fn.Fn.String(), DeclaredIn: r.decl, Used: r.used})
 	}
 	return out
